@@ -1,4 +1,88 @@
+(* C15 property theorems.  Nothing but statements closed by `exact`, each followed by Print Assumptions.
+   Locations of the caller's objects are  U p ; equal positives = the same object, so quantifying over all positives
+   covers every alias pattern.  Pure_dest / Inplace: the value left in the destination equals the value of the
+   reference call on four DISTINCT objects holding the same operand values (ProofsBase.fresh); Frame: no other
+   object of the caller changes.  Ring_alias_free = all 18 operations of the ring interface. *)
 From Coq Require Import ZArith.
-From C15 Require Import Model.
-Theorem C15_tmp : loc_eqb (U 1) (U 1) = true. Proof. reflexivity. Qed.
-Print Assumptions C15_tmp.
+From C15 Require Import Model ProofsBase ProofsMr ProofsMg ProofsMi ProofsInt ProofsOld.
+Local Open Scope Z_scope.
+
+Theorem C15_modular_ruint_alias_free : forall W p same, Ring_alias_free (mr_op W p same).
+Proof. exact mr_alias_free. Qed.
+Print Assumptions C15_modular_ruint_alias_free.
+Theorem C15_montgomery_ruint_alias_free : forall W p p1 r3, Ring_alias_free (mg_op W p p1 r3).
+Proof. exact mg_alias_free. Qed.
+Print Assumptions C15_montgomery_ruint_alias_free.
+Theorem C15_modular_integer_alias_free : forall p, Ring_alias_free (mi_op p).
+Proof. exact mi_alias_free. Qed.
+Print Assumptions C15_modular_integer_alias_free.
+Theorem C15_integer_fused_alias_free : Int_fused_alias_free.
+Proof. exact int_fused_alias_free. Qed.
+Print Assumptions C15_integer_fused_alias_free.
+Theorem C15_integer_gcd5_alias_free : Gcd5_alias_free.
+Proof. exact gcd5_alias_free. Qed.
+Print Assumptions C15_integer_gcd5_alias_free.
+Theorem C15_integer_gcd4_alias_free : Gcd4_alias_free.
+Proof. exact gcd4_alias_free. Qed.
+Print Assumptions C15_integer_gcd4_alias_free.
+Theorem C15_integer_divmod_alias_free : Divmod_alias_free.
+Proof. exact divmod_alias_free. Qed.
+Print Assumptions C15_integer_divmod_alias_free.
+Theorem C15_integer_divmod_is_euclidean : forall x y, y <> 0 ->
+  let '(q, r) := divmod_spec x y in x = y * q + r /\ 0 <= r < Z.abs y.
+Proof. exact divmod_spec_euclid. Qed.
+Print Assumptions C15_integer_divmod_is_euclidean.
+Theorem C15_integer_divmod_word_alias_free : Divmod_w_alias_free.
+Proof. exact divmod_w_alias_free. Qed.
+Print Assumptions C15_integer_divmod_word_alias_free.
+Theorem C15_integer_powmod_alias_free : Powmod_alias_free.
+Proof. exact powmod_alias_free. Qed.
+Print Assumptions C15_integer_powmod_alias_free.
+Theorem C15_qfield_rational_alias_free : QField_alias_free.
+Proof. exact qfield_alias_free. Qed.
+Print Assumptions C15_qfield_rational_alias_free.
+Theorem C15_pure_dest_means_alias_independent : forall op, Pure_dest op ->
+  forall h h' r a b c r' a' b' c',
+    h (U a) = h' (U a') -> h (U b) = h' (U b') -> h (U c) = h' (U c') ->
+    exec (op (U r) (U a) (U b) (U c)) h (U r) = exec (op (U r') (U a') (U b') (U c')) h' (U r').
+Proof. exact pure_dest_alias_independent. Qed.
+Print Assumptions C15_pure_dest_means_alias_independent.
+Theorem C15_inplace_means_alias_independent : forall op, Inplace op ->
+  forall h h' r a b c r' a' b' c',
+    h (U r) = h' (U r') -> h (U a) = h' (U a') -> h (U b) = h' (U b') -> h (U c) = h' (U c') ->
+    exec (op (U r) (U a) (U b) (U c)) h (U r) = exec (op (U r') (U a') (U b') (U c')) h' (U r').
+Proof. exact inplace_alias_independent. Qed.
+Print Assumptions C15_inplace_means_alias_independent.
+(* the bodies as found before the repairs violate these statements (concrete stores) *)
+Theorem C15_old_modular_ruint_sub_refuted : ~ Pure_dest (lift3 (mr_sub_old W64 101)).
+Proof. exact mr_sub_old_refuted. Qed.
+Print Assumptions C15_old_modular_ruint_sub_refuted.
+Theorem C15_old_modular_ruint_div_refuted : ~ Pure_dest (lift3 (mr_div_old W64 false 101)).
+Proof. exact mr_div_old_refuted. Qed.
+Print Assumptions C15_old_modular_ruint_div_refuted.
+Theorem C15_old_modular_ruint_axpy_refuted : ~ Pure_dest (mr_axpy_old W64 false 101).
+Proof. exact mr_axpy_old_refuted. Qed.
+Print Assumptions C15_old_modular_ruint_axpy_refuted.
+Theorem C15_old_modular_ruint_maxpy_refuted : ~ Pure_dest (mr_maxpy_old W64 false 101).
+Proof. exact mr_maxpy_old_refuted. Qed.
+Print Assumptions C15_old_modular_ruint_maxpy_refuted.
+Theorem C15_old_integer_gcd5_refuted :
+  exists (h : store) (g u v a b : positive), g <> u /\ g <> v /\ u <> v /\
+    exec (Int_gcd5_old (U g) (U u) (U v) (U a) (U b)) h (U g) <> fst (fst (gcd_spec (h (U a)) (h (U b)))).
+Proof. exact gcd5_old_refuted. Qed.
+Print Assumptions C15_old_integer_gcd5_refuted.
+Theorem C15_old_integer_divmod_refuted :
+  exists (h : store) (q r a b : positive), q <> r /\
+    exec (Int_divmod_old (U q) (U r) (U a) (U b)) h (U q) <> fst (divmod_spec (h (U a)) (h (U b))).
+Proof. exact divmod_old_refuted. Qed.
+Print Assumptions C15_old_integer_divmod_refuted.
+Theorem C15_old_integer_divmod_word_refuted :
+  exists (h : store) (q a : positive) (b : Z),
+    snd (Int_divmod_w_old true (U q) (U a) b h) (U q) <> fst (divmod_w_spec true (h (U a)) b).
+Proof. exact divmod_w_old_refuted. Qed.
+Print Assumptions C15_old_integer_divmod_word_refuted.
+Theorem C15_old_integer_powmod_refuted :
+  exists (h : store) (res n m : positive) (e : Z),
+    exec (Int_powmod_old (U res) (U n) e (U m)) h (U res) <> powmod_spec (h (U n)) e (h (U m)).
+Proof. exact powmod_old_refuted. Qed.
+Print Assumptions C15_old_integer_powmod_refuted.
